@@ -235,8 +235,10 @@ func (c *Certificate) isValid(certType int, currentChain []*Certificate, opts *V
 	}
 	// A DNS name constraint restricts DNS names only: there is nothing to
 	// check when no name, or an IP address, was requested, and the trailing
-	// dot that VerifyHostname accepts is not part of the name.
-	if name, isDNS := dnsNameForConstraints(opts.DNSName); isDNS && len(c.PermittedDNSDomains) > 0 {
+	// dot that VerifyHostname accepts is not part of the name. The constraints
+	// of a certificate restrict what is issued below it, so they are checked
+	// for issuers only, not for the certificate being verified.
+	if name, isDNS := dnsNameForConstraints(opts.DNSName); certType != leafCertificate && isDNS && len(c.PermittedDNSDomains) > 0 {
 		ok := false
 		for _, constraint := range c.PermittedDNSDomains {
 			ok = matchNameConstraint(name, constraint)
